@@ -187,6 +187,7 @@ theorem no_uninit_read {s : Sys} {g : Obs} (r : Reach s g) (op : Op) (_ : Legal 
   | ack => simp [step]
   | cccd on => simp [step]
   | wheel => simp [step]
+  | reconnect => simp [step]
 
 /-- Progress ("produces"): whenever a procedure is pending, the environment can always obtain its
     response — the handler's confirmation if it is still owed, the client's confirmation of an
